@@ -94,6 +94,9 @@ class C07(Check):
                 s['order'] = order
                 # the caller says which format it expects (the image's own)
                 s['expected'] = st('order').random() < 0.5
+            s['kind'] = core.weighted(st('order'), imgsim.CHUNK_KINDS)
+            if mode == 'bare' and st('order').random() < 0.12:
+                s['tracing'] = True
             qrng = st('queries')
             if qrng.random() < 0.3:
                 # the caller looks at the inspector while the stream is
@@ -247,13 +250,13 @@ class C07(Check):
         """-> (final virtual_size, [(pos, value) after every chunk])."""
         trace = []
         if s['mode'] == 'bare':
-            m = imgsim.fi()
-            insp = m.ALL_FORMATS[fmt]()
+            insp = imgsim.new_inspector(fmt, bool(s.get('tracing')))
             pos = 0
             err = False
             qp = s.get('q') or {}
+            maker = streams.ChunkMaker(s.get('kind'), sizes)
             for ci, nbytes in enumerate(sizes):
-                chunk = data[pos:pos + nbytes]
+                chunk = maker.make(data[pos:pos + nbytes])
                 pos += nbytes
                 if not err:
                     try:
@@ -265,12 +268,14 @@ class C07(Check):
                     self._pr['query_mid_stream'] = \
                         self._pr.get('query_mid_stream', 0) + 1
                     imgsim.do_query(insp, x)
+            # a producer that reuses its buffer has moved on
+            maker.scrub()
             insp.finish()
             return imgsim.q_attr(insp, 'virtual_size'), trace
         from sim.streams import SimSource
         m = imgsim.fi()
         plan = [x for x in sizes if x > 0] if s['mode'] == 'wfile' else sizes
-        src = SimSource(data, plan)
+        src = SimSource(data, plan, kind=s.get('kind'))
         exp = fmt if (s.get('expected') and fmt in F.FORMATS) else None
         w = m.InspectWrapper(src, expected_format=exp)
         imgsim.order_inspectors(w, s.get('order') or list(F.FORMATS))
